@@ -840,6 +840,11 @@ func range_(thread *Thread, b *Builtin, args Tuple, kwargs []Tuple) (Value, erro
 		return nil, nameErr(b, "step argument must not be zero")
 	}
 
+	// The length computation needs stop-start to be representable.
+	if span := stop - start; (span < 0) != (stop < start) || span == math.MinInt {
+		return nil, nameErr(b, "range is too large")
+	}
+
 	return rangeValue{start: start, stop: stop, step: step, len: rangeLen(start, stop, step)}, nil
 }
 
